@@ -199,6 +199,11 @@ def report(prop, tier, seed, mod, obs, results, pre, t0):
             replays += 1
             if rep.get("verdict") == "cex":
                 violations.append(r)
+            elif r.get("engine") == "ch":
+                # CrossHair's models of some library operations are approximate; a candidate that
+                # the real code does not reproduce decides nothing
+                r["msg"] = f"CrossHair candidate did not reproduce on the real code ({_short(r.get('msg'), 200)})"
+                inconclusive.append(r)
             else:
                 errors.append((r, f"counterexample did not reproduce on the real code (replay: {rep})"))
         else:
